@@ -4,6 +4,7 @@ import (
 	"context"
 	"errors"
 	"fmt"
+	"math"
 	"sort"
 	"strings"
 	"sync"
@@ -153,7 +154,7 @@ func genC04Plan(maxInitial int) *rapid.Generator[c04Plan] {
 
 func TestC04(t *testing.T) {
 	rec := ev.New(t, "C04")
-	rec.Rule("rapid-generated histories: 2..4 client goroutines x 8..20 operations over 2..3 keys (Put/Get/Delete/PrefixAppend/PrefixContains/PrefixRemove/PrefixList, unique put values, 3 children) issued ONCE each through generated live entry nodes (any node whose Join returned and that has not finished leaving), concurrently with a generated churn plan (1..3 phases of 1..3 concurrent joins/leaves, ids next to the keys' hashes, seeded call delays). Oracle: (1) every error is retryable or one of the two documented semantic conflicts; (2) per key, the history of SUCCESSFUL operations (failed ones must be no-ops, so they are left out: any effect they had makes a later read inexplicable) is linearizable w.r.t. a register + set model (porcupine, 20 s budget, unknown = inconclusive). Non-trivial: >= 2 clients touched one key and >= 1 operation overlapped a membership action in time. Distinct = distinct plans.")
+	rec.Rule("rapid-generated histories: 2..4 client goroutines x 8..20 operations over 2..3 keys (Put/Get/Delete/PrefixAppend/PrefixContains/PrefixRemove/PrefixList, unique put values, 3 children) issued ONCE each through generated live entry nodes (any node whose Join returned and that has not finished leaving), concurrently with a generated churn plan (1..3 phases of 1..3 concurrent joins/leaves, ids next to the keys' hashes, seeded call delays). Oracle: (1) every error is retryable or one of the two documented semantic conflicts; (2) per key, the history of SUCCESSFUL operations (failed ones must be no-ops, so they are left out: any effect they had makes a later read inexplicable; the one exception is a mutating operation given up by the transport with 'deadline exceeded' after the simulator's 2 s RPC timer - the owner may still carry it out - which is checked as 'never, or at some point after its invocation') is linearizable w.r.t. a register + set model (porcupine, 20 s budget, unknown = inconclusive). Non-trivial: >= 2 clients touched one key and >= 1 operation overlapped a membership action in time. Distinct = distinct plans.")
 	rec.Assume("timestamps from the process-wide monotonic clock; porcupine v1.3.0 is trusted as the linearizability checker")
 	// scenario tier: an operation that is inside the owner's storage when the membership lock is taken
 	for _, kind := range []string{"put", "append", "delete"} {
@@ -351,15 +352,49 @@ func TestC04(t *testing.T) {
 			}
 		}
 		// (2) linearizability per key, successful operations only
+		// A mutating operation that ended in "deadline exceeded" is the one kind of failure whose
+		// effect is unknowable to the caller: the call was given up by the transport while the
+		// owner may still carry it out, at any later time. It is checked as "either never took
+		// effect, or took effect at some point after its invocation" (every combination over the
+		// at most four such operations of a key is tried; one linearizable combination suffices).
 		byKey := map[string][]porcupine.Operation{}
+		ambiguous := map[string][]porcupine.Operation{}
 		for _, h := range history {
 			if h.Err != "" {
+				if strings.Contains(h.Err, "deadline exceeded") {
+					switch h.In.Kind {
+					case "put", "delete", "append", "remove":
+						ambiguous[h.Key] = append(ambiguous[h.Key], porcupine.Operation{ClientId: h.Client + 1000*(1+len(ambiguous[h.Key])), Input: h.In, Output: h.Out, Call: h.Call, Return: math.MaxInt64 - int64(len(ambiguous[h.Key]))})
+						if _, ok := byKey[h.Key]; !ok {
+							byKey[h.Key] = nil
+						}
+					}
+				}
 				continue
 			}
 			byKey[h.Key] = append(byKey[h.Key], porcupine.Operation{ClientId: h.Client, Input: h.In, Output: h.Out, Call: h.Call, Return: h.Ret})
 		}
 		for _, key := range sortedKeys(byKey) {
-			res := porcupine.CheckOperationsTimeout(kvLinModel, byKey[key], 20*time.Second)
+			amb := ambiguous[key]
+			if len(amb) > 0 {
+				rec.Add("keys_with_operations_of_unknowable_effect", 1)
+			}
+			if len(amb) > 4 {
+				rec.Inconclusive("too-many-operations-of-unknowable-effect-on-one-key")
+				continue
+			}
+			res := porcupine.Illegal
+			for mask := 0; mask < 1<<len(amb) && res != porcupine.Ok; mask++ {
+				ops := append([]porcupine.Operation{}, byKey[key]...)
+				for i, a := range amb {
+					if mask&(1<<i) != 0 {
+						ops = append(ops, a)
+					}
+				}
+				if r1 := porcupine.CheckOperationsTimeout(kvLinModel, ops, 20*time.Second); r1 == porcupine.Ok || (r1 == porcupine.Unknown && res == porcupine.Illegal) {
+					res = r1
+				}
+			}
 			switch res {
 			case porcupine.Unknown:
 				rec.Inconclusive("porcupine-timeout")
